@@ -1,14 +1,513 @@
 package main
 
-import "context"
+// Replay of solver counterexamples on the real code, for the RPC handlers RequestVote and
+// AppendEntries: a small-scope model of the failing obligation is projected onto the handler's
+// pre-state, an in-package Go test (injected with `go test -overlay`, nothing is written to the
+// repository) builds a real *Raft over real file-backed storage, installs that state, calls the
+// real handler and reports the post-state; the violated clause is then evaluated on the concrete
+// pre/post state by the solver (all watched terms pinned to the observed values).
+
+import (
+	"context"
+	"encoding/json"
+	"fmt"
+	"os"
+	"os/exec"
+	"path/filepath"
+	"regexp"
+	"strconv"
+	"strings"
+)
 
 func nil2ctx() context.Context { return context.Background() }
 
-// extractWitness projects a solver model onto the function's pre-state (implemented per function shape).
-func extractWitness(o *Obligation) map[string]interface{} {
-	return nil
+var replayable = map[string]bool{"Raft.RequestVote": true, "Raft.AppendEntries": true}
+
+var forallRe = regexp.MustCompile(`^\(forall \(\(([A-Za-z_][A-Za-z0-9_]*![0-9]+) Int\)\) (.*)\)$`)
+
+// instantiate replaces top-level single-variable Int quantifiers of a hypothesis by their
+// instances over 0..9 (small-scope model finding).
+func instantiate(h string) string {
+	m := forallRe.FindStringSubmatch(h)
+	if m == nil {
+		if strings.HasPrefix(h, "(=> ") {
+			parts := splitSexprs(h[4 : len(h)-1])
+			if len(parts) == 2 && !isQuant(parts[0]) {
+				inner := instantiate(parts[1])
+				if inner != "" {
+					return "(=> " + parts[0] + " " + inner + ")"
+				}
+			}
+		}
+		return ""
+	}
+	sym, body := m[1], m[2]
+	if strings.HasPrefix(body, "(! ") {
+		// strip pattern annotation
+		parts := splitSexprs(body[3 : len(body)-1])
+		if len(parts) > 0 {
+			body = parts[0]
+		}
+	}
+	if isQuant(body) {
+		return ""
+	}
+	var insts []string
+	for i := 0; i <= 9; i++ {
+		insts = append(insts, strings.ReplaceAll(body, sym, fmt.Sprint(i)))
+	}
+	return And(insts...)
 }
 
-func tryReplay(o *Obligation, w map[string]interface{}, repo string) map[string]interface{} {
-	return map[string]interface{}{"confirmed": false, "reason": "no replay harness for this function shape"}
+// smallScopeQuery: quantifier-free hypotheses + instances of the quantified ones + the negated goal +
+// bounds that keep every watched integer small.
+func (o *Obligation) smallScopeQuery(friendly bool) string {
+	base := o.smtMode(true, ModeNoQuant, true)
+	// insert extra assertions before (check-sat)
+	var extra []string
+	full := o.PC
+	for _, p := range full {
+		var cs []string
+		flattenAnd(p, &cs)
+		for _, c := range cs {
+			if isQuant(c) {
+				if in := instantiate(c); in != "" {
+					extra = append(extra, in)
+				}
+			}
+		}
+	}
+	// definitions of path / merge symbols whose right-hand side contains quantified conjuncts were
+	// dropped from the base query: re-add them with the conjuncts instantiated
+	for _, f := range o.vc.facts[:o.NFacts] {
+		if !isQuant(f) || !strings.HasPrefix(f, "(= ") {
+			continue
+		}
+		parts := splitSexprs(f[3 : len(f)-1])
+		if len(parts) != 2 || isQuant(parts[0]) {
+			continue
+		}
+		var cs []string
+		flattenAnd(parts[1], &cs)
+		var keep []string
+		for _, c := range cs {
+			if !isQuant(c) {
+				keep = append(keep, c)
+			} else if in := instantiate(c); in != "" {
+				keep = append(keep, in)
+			}
+		}
+		extra = append(extra, "(= "+parts[0]+" "+And(keep...)+")")
+	}
+	watch := o.Watch
+	if watch == nil {
+		watch = o.vc.watch
+	}
+	for _, w := range watch {
+		if strings.Contains(w.Label, "Success") || strings.Contains(w.Label, "Granted") || strings.Contains(w.Label, "Prevote") || strings.Contains(w.Label, "ioOK") || strings.Contains(w.Label, "tornTail") || strings.Contains(w.Label, "logOpen") ||
+			strings.Contains(w.Label, "levelSet") || strings.Contains(w.Label, "shouldVerifyQuorum") || strings.Contains(w.Label, "quorumVerified") {
+			continue
+		}
+		lab := w.Label
+		small := strings.HasSuffix(lab, "Term") || strings.HasSuffix(lab, "Index") || strings.Contains(lab, "Lterm[") || strings.HasSuffix(lab, "Llast") || strings.HasSuffix(lab, "Lfirst") ||
+			strings.HasSuffix(lab, "lastApplied") || strings.HasSuffix(lab, "LeaderCommit") || strings.HasSuffix(lab, ".len") || strings.HasSuffix(lab, "persTerm")
+		if small && strings.HasPrefix(lab, "pre:") {
+			extra = append(extra, "(<= 0 "+w.Term+")", "(<= "+w.Term+" 9)")
+		}
+		if strings.HasSuffix(lab, ".len") {
+			extra = append(extra, "(<= "+w.Term+" 3)")
+		}
+	}
+	{
+		term := map[string]string{}
+		for _, w := range watch {
+			term[w.Label] = w.Term
+		}
+		// the placeholder entry of a never-compacted log has term 0
+		if f, t0 := term["pre:Lfirst"], term["pre:Lterm[0]"]; f != "" && t0 != "" {
+			extra = append(extra, "(=> (= "+f+" 0) (= "+t0+" 0))")
+		}
+	}
+	if friendly {
+		// prefer witnesses that behave the same under the real clock: last contact long ago, lease
+		// lapsed, a sane election timeout
+		term := map[string]string{}
+		for _, w := range watch {
+			term[w.Label] = w.Term
+		}
+		if n, lc, et := term["pre:now"], term["pre:r.lastContact"], term["pre:r.options.electionTimeout"]; n != "" && lc != "" && et != "" {
+			extra = append(extra, "(>= "+et+" 1000000)", "(<= "+et+" 1000000000)", "(>= (- "+n+" "+lc+") (+ "+et+" 60000000000))")
+		}
+		if n, ex := term["pre:now"], term["pre:r.operationManager.leaderLease.expiration"]; n != "" && ex != "" {
+			extra = append(extra, "(<= "+ex+" (- "+n+" 60000000000))")
+		}
+	}
+	i := strings.LastIndex(base, "(check-sat)")
+	var b strings.Builder
+	// declarations needed by the added assertions but absent from the base query
+	have := map[string]bool{}
+	for _, ln := range strings.Split(base, "\n") {
+		if strings.HasPrefix(ln, "(declare-fun ") {
+			rest := ln[len("(declare-fun "):]
+			have[rest[:strings.IndexByte(rest, ' ')]] = true
+		}
+	}
+	need := map[string]bool{}
+	for _, e := range extra {
+		for _, m := range symRe.FindAllString(e, -1) {
+			if _, ok := o.vc.declSet[m]; ok && !have[m] {
+				need[m] = true
+			}
+		}
+	}
+	for _, d := range o.vc.decls {
+		rest := d[len("(declare-fun "):]
+		if need[rest[:strings.IndexByte(rest, ' ')]] {
+			b.WriteString(d + "\n")
+		}
+	}
+	b.WriteString(base[:i])
+	for _, e := range extra {
+		b.WriteString("(assert " + e + ")\n")
+	}
+	b.WriteString(base[i:])
+	return b.String()
 }
+
+func (o *Obligation) watchList() []watchTerm {
+	if o.Watch != nil {
+		return o.Watch
+	}
+	return o.vc.watch
+}
+
+func parseValues(out string, watch []watchTerm) map[string]string {
+	i := strings.Index(out, "((")
+	if i < 0 {
+		return nil
+	}
+	items := splitSexprs(strings.TrimSpace(out[i:])[1:])
+	w := map[string]string{}
+	for k, it := range items {
+		if k >= len(watch) {
+			break
+		}
+		it = strings.TrimSpace(it)
+		if !strings.HasPrefix(it, "(") {
+			continue
+		}
+		parts := splitSexprs(it[1 : len(it)-1])
+		if len(parts) >= 2 {
+			v := parts[len(parts)-1]
+			v = strings.ReplaceAll(strings.ReplaceAll(strings.ReplaceAll(v, "(- ", "-"), ")", ""), " ", "")
+			w[watch[k].Label] = v
+		}
+	}
+	return w
+}
+
+// extractWitness projects a small-scope model onto the handler's pre-state.
+func extractWitness(o *Obligation) map[string]interface{} {
+	if !replayable[o.Func] || len(o.watchList()) == 0 {
+		return nil
+	}
+	dir, _ := os.MkdirTemp("/var/tmp", "govc-replay-")
+	defer os.RemoveAll(dir)
+	q := "(set-option :produce-models true)\n(set-logic ALL)\n" + o.smallScopeQuery(true)
+	file := filepath.Join(dir, "witness.smt2")
+	os.WriteFile(file, []byte(q), 0o644)
+	out, _ := exec.Command("z3-new", "-T:30", "-smt2", file).CombinedOutput()
+	if !strings.HasPrefix(strings.TrimSpace(string(out)), "sat") {
+		q = "(set-option :produce-models true)\n(set-logic ALL)\n" + o.smallScopeQuery(false)
+		os.WriteFile(file, []byte(q), 0o644)
+		out, _ = exec.Command("z3-new", "-T:30", "-smt2", file).CombinedOutput()
+	}
+	if !strings.HasPrefix(strings.TrimSpace(string(out)), "sat") {
+		if os.Getenv("GOVC_DEBUG") != "" {
+			os.WriteFile("/var/tmp/govc-debug-witness.smt2", []byte(q), 0o644)
+			fmt.Fprintln(os.Stderr, "witness query:", strings.SplitN(string(out), "\n", 3)[:2])
+		}
+		return nil
+	}
+	vals := parseValues(string(out), o.watchList())
+	if vals == nil {
+		return nil
+	}
+	w := map[string]interface{}{}
+	for k, v := range vals {
+		w[k] = v
+	}
+	return w
+}
+
+func wint(w map[string]interface{}, k string) int64 {
+	s, _ := w[k].(string)
+	n, _ := strconv.ParseInt(s, 10, 64)
+	return n
+}
+func wbool(w map[string]interface{}, k string) bool {
+	s, _ := w[k].(string)
+	return s == "true"
+}
+
+// tryReplay runs the witness against the real handler and evaluates the clause on what happened.
+func tryReplay(o *Obligation, w map[string]interface{}, repo string) map[string]interface{} {
+	res := map[string]interface{}{"confirmed": false}
+	if !replayable[o.Func] {
+		res["reason"] = "no replay harness for this function shape"
+		return res
+	}
+	dir, _ := os.MkdirTemp("/var/tmp", "govc-replay-")
+	defer os.RemoveAll(dir)
+	wj, _ := json.Marshal(w)
+	src := strings.ReplaceAll(replayTestTemplate, "@@WITNESS@@", strconv.Quote(string(wj)))
+	src = strings.ReplaceAll(src, "@@HANDLER@@", strings.TrimPrefix(o.Func, "Raft."))
+	testFile := filepath.Join(dir, "replay_test.go")
+	os.WriteFile(testFile, []byte(src), 0o644)
+	ov := fmt.Sprintf(`{"Replace":{"%s/zz_govc_replay_test.go":"%s"}}`, repo, testFile)
+	ovFile := filepath.Join(dir, "ov.json")
+	os.WriteFile(ovFile, []byte(ov), 0o644)
+	cmd := exec.Command("go", "test", "-overlay", ovFile, "-vet=off", "-count=1", "-timeout", "60s", "-run", "^TestGovcReplay$", "-v", ".")
+	cmd.Dir = repo
+	cmd.Env = append(os.Environ(), "GOFLAGS=-mod=mod", "GOPROXY=off", "GOSUMDB=off", "GOTOOLCHAIN=local")
+	out, _ := cmd.CombinedOutput()
+	res["generated_test"] = src
+	post := ""
+	for _, ln := range strings.Split(string(out), "\n") {
+		if i := strings.Index(ln, "REPLAY-POST "); i >= 0 {
+			post = ln[i+len("REPLAY-POST "):]
+		}
+	}
+	if post == "" {
+		tail := string(out)
+		if len(tail) > 3000 {
+			tail = tail[len(tail)-3000:]
+		}
+		res["reason"] = "the real run did not report a post-state"
+		res["real_run_output"] = tail
+		if strings.Contains(string(out), "panic:") {
+			res["confirmed"] = o.Kind == "no-panic"
+			res["reason"] = "the real handler panicked on the witness"
+		}
+		return res
+	}
+	var pv map[string]interface{}
+	if err := json.Unmarshal([]byte(post), &pv); err != nil {
+		res["reason"] = "bad post-state: " + err.Error()
+		return res
+	}
+	res["real_post_state"] = pv
+	// evaluate the clause on the concrete run: pin every watched term
+	var b strings.Builder
+	b.WriteString("(set-logic ALL)\n")
+	// declarations: reuse the query text up to its first assert
+	q := o.smtMode(true, ModeNoQuant, true)
+	for _, ln := range strings.Split(q, "\n") {
+		if strings.HasPrefix(ln, "(declare-fun ") {
+			b.WriteString(ln + "\n")
+		}
+	}
+	// only the observed values are asserted: the real run fixes the path, so no path condition and no
+	// definitions of the symbolic run are used
+	pinned := 0
+	pins := map[string]string{}
+	var order []string
+	for pass := 0; pass < 2; pass++ { // pre first, then post (the real run overrides)
+		for _, wt := range o.watchList() {
+			var val string
+			if strings.HasPrefix(wt.Label, "pre:") {
+				if pass != 0 {
+					continue
+				}
+				s, ok := w[wt.Label].(string)
+				if !ok {
+					continue
+				}
+				val = s
+			} else {
+				if pass != 1 {
+					continue
+				}
+				v, ok := pv[strings.TrimPrefix(wt.Label, "post:")]
+				if !ok {
+					continue
+				}
+				val = fmt.Sprint(v)
+			}
+			if val != "true" && val != "false" {
+				if _, err := strconv.ParseInt(val, 10, 64); err != nil {
+					continue
+				}
+				val = IntLit(val)
+			}
+			if _, seen := pins[wt.Term]; !seen {
+				order = append(order, wt.Term)
+			}
+			pins[wt.Term] = val
+		}
+	}
+	for _, t := range order {
+		b.WriteString("(assert (= " + t + " " + pins[t] + "))\n")
+		pinned++
+	}
+	b.WriteString("(assert (not " + o.Goal + "))\n(check-sat)\n")
+	evalFile := filepath.Join(dir, "eval.smt2")
+	os.WriteFile(evalFile, []byte(b.String()), 0o644)
+	eo, _ := exec.Command("z3-new", "-T:30", "-smt2", evalFile).CombinedOutput()
+	if os.Getenv("GOVC_DEBUG") != "" {
+		os.WriteFile("/var/tmp/govc-debug-eval.smt2", []byte(b.String()), 0o644)
+	}
+	verdict := strings.TrimSpace(strings.SplitN(string(eo), "\n", 2)[0])
+	res["pinned_terms"] = pinned
+	res["clause_evaluation"] = map[string]string{"sat": "clause is FALSE on the real run", "unsat": "clause holds on the real run", "unknown": "undetermined"}[verdict]
+	if verdict == "sat" {
+		// the clause, with every observable pinned to the real run, is falsifiable; make sure it is not
+		// falsifiable merely because something was left unpinned: also require that it cannot be true
+		b2 := strings.Replace(b.String(), "(assert (not "+o.Goal+"))", "(assert "+o.Goal+")", 1)
+		os.WriteFile(evalFile, []byte(b2), 0o644)
+		eo2, _ := exec.Command("z3-new", "-T:30", "-smt2", evalFile).CombinedOutput()
+		v2 := strings.TrimSpace(strings.SplitN(string(eo2), "\n", 2)[0])
+		if v2 == "unsat" {
+			res["confirmed"] = true
+			res["reason"] = "the real handler, started from the witness state, ends in a state in which the clause is false"
+		} else {
+			res["reason"] = "the clause is not determined by the observed pre/post state (some term it mentions is not observable)"
+		}
+	} else {
+		res["reason"] = "the witness does not reproduce on the real code (" + verdict + ")"
+	}
+	return res
+}
+
+const replayTestTemplate = `package raft
+
+import (
+	"encoding/json"
+	"fmt"
+	"strconv"
+	"testing"
+	"time"
+)
+
+func govcStr(id int64) string {
+	if id == 0 {
+		return ""
+	}
+	return "s" + strconv.FormatInt(id, 10)
+}
+
+func govcID(s string) int64 {
+	if s == "" {
+		return 0
+	}
+	n, err := strconv.ParseInt(s[1:], 10, 64)
+	if err != nil {
+		return -1
+	}
+	return n
+}
+
+func TestGovcReplay(t *testing.T) {
+	var w map[string]string
+	if err := json.Unmarshal([]byte(@@WITNESS@@), &w); err != nil {
+		t.Fatal(err)
+	}
+	geti := func(k string) int64 { n, _ := strconv.ParseInt(w[k], 10, 64); return n }
+	getb := func(k string) bool { return w[k] == "true" }
+	id := govcStr(geti("pre:r.id"))
+	if id == "" {
+		id = "s1"
+	}
+	dir := t.TempDir()
+	r, err := makeRaft(id, "127.0.0.1:18099", dir, false, 0)
+	if err != nil {
+		t.Fatal(err)
+	}
+	defer r.log.Close()
+	// the log: boundary (Lfirst, Lterm[Lfirst]) then entries Lfirst+1..Llast
+	first, last := geti("pre:Lfirst"), geti("pre:Llast")
+	if first > 0 {
+		if err := r.log.DiscardEntries(uint64(first), uint64(geti(fmt.Sprintf("pre:Lterm[%d]", first)))); err != nil {
+			t.Fatal(err)
+		}
+	}
+	for i := first + 1; i <= last; i++ {
+		e := NewLogEntry(uint64(i), uint64(geti(fmt.Sprintf("pre:Lterm[%d]", i))), []byte(fmt.Sprintf("d%d", geti(fmt.Sprintf("pre:Ldata[%d]", i)))), LogEntryType(geti(fmt.Sprintf("pre:Ltyp[%d]", i))))
+		if err := r.log.AppendEntry(e); err != nil {
+			t.Fatal(err)
+		}
+	}
+	now := time.Now()
+	r.configuration = &Configuration{Members: map[string]string{id: "127.0.0.1:18099", "sB": "b", "sC": "c"}, IsVoter: map[string]bool{id: true, "sB": true, "sC": true}, Index: 1}
+	cc := r.configuration.Clone()
+	r.committedConfiguration = &cc
+	r.followers = map[string]*follower{id: {}, "sB": {}, "sC": {}}
+	r.state = State(geti("pre:r.state"))
+	r.currentTerm = uint64(geti("pre:r.currentTerm"))
+	r.votedFor = govcStr(geti("pre:r.votedFor"))
+	r.commitIndex = uint64(geti("pre:r.commitIndex"))
+	r.lastApplied = uint64(geti("pre:r.lastApplied"))
+	r.lastIncludedIndex = uint64(geti("pre:r.lastIncludedIndex"))
+	r.lastIncludedTerm = uint64(geti("pre:r.lastIncludedTerm"))
+	r.leaderID = govcStr(geti("pre:r.leaderID"))
+	r.lastContact = now.Add(time.Duration(geti("pre:r.lastContact") - geti("pre:now")))
+	r.operationManager.leaderLease.expiration = now.Add(time.Duration(geti("pre:r.operationManager.leaderLease.expiration") - geti("pre:now")))
+	if et := geti("pre:r.options.electionTimeout"); et != 0 {
+		r.options.electionTimeout = time.Duration(et)
+	}
+	r.stateStorage.SetState(uint64(geti("pre:persTerm")), govcStr(geti("pre:persVote")))
+	post := map[string]interface{}{}
+	var callErr error
+	switch "@@HANDLER@@" {
+	case "RequestVote":
+		req := &RequestVoteRequest{CandidateID: govcStr(geti("pre:request.CandidateID")), Term: uint64(geti("pre:request.Term")),
+			LastLogIndex: uint64(geti("pre:request.LastLogIndex")), LastLogTerm: uint64(geti("pre:request.LastLogTerm")), Prevote: getb("pre:request.Prevote")}
+		resp := &RequestVoteResponse{Term: uint64(geti("pre:response.Term")), VoteGranted: getb("pre:response.VoteGranted")}
+		callErr = r.RequestVote(req, resp)
+		post["response.Term"], post["response.VoteGranted"] = resp.Term, resp.VoteGranted
+	case "AppendEntries":
+		n := int(geti("pre:request.Entries.len"))
+		var es []*LogEntry
+		for j := 0; j < n; j++ {
+			p := fmt.Sprintf("pre:request.Entries[%d]", j)
+			es = append(es, &LogEntry{Index: uint64(geti(p + ".Index")), Term: uint64(geti(p + ".Term")), Data: []byte(fmt.Sprintf("d%d", geti(p+".Data"))), EntryType: LogEntryType(geti(p + ".EntryType"))})
+		}
+		req := &AppendEntriesRequest{LeaderID: govcStr(geti("pre:request.LeaderID")), Term: uint64(geti("pre:request.Term")), LeaderCommit: uint64(geti("pre:request.LeaderCommit")),
+			PrevLogIndex: uint64(geti("pre:request.PrevLogIndex")), PrevLogTerm: uint64(geti("pre:request.PrevLogTerm")), Entries: es}
+		resp := &AppendEntriesResponse{Term: uint64(geti("pre:response.Term")), Success: getb("pre:response.Success"), Index: uint64(geti("pre:response.Index"))}
+		callErr = r.AppendEntries(req, resp)
+		post["response.Term"], post["response.Success"], post["response.Index"] = resp.Term, resp.Success, resp.Index
+	}
+	if callErr != nil {
+		post["result.err"], post["result.result"] = 1, 1
+	} else {
+		post["result.err"], post["result.result"] = 0, 0
+	}
+	post["r.currentTerm"], post["r.votedFor"], post["r.state"] = r.currentTerm, govcID(r.votedFor), uint32(r.state)
+	post["r.commitIndex"], post["r.lastApplied"] = r.commitIndex, r.lastApplied
+	post["r.lastIncludedIndex"], post["r.lastIncludedTerm"] = r.lastIncludedIndex, r.lastIncludedTerm
+	post["r.leaderID"] = govcID(r.leaderID)
+	post["r.lastContact"] = geti("pre:now") + int64(r.lastContact.Sub(now))
+	post["now"] = geti("pre:now") + int64(time.Since(now))
+	pl := r.log.(*persistentLog)
+	post["Lfirst"], post["Llast"] = pl.entries[0].Index, pl.entries[len(pl.entries)-1].Index
+	for _, e := range pl.entries {
+		if e.Index <= 9 {
+			post[fmt.Sprintf("Lterm[%d]", e.Index)] = e.Term
+			post[fmt.Sprintf("Ltyp[%d]", e.Index)] = uint32(e.EntryType)
+			if len(e.Data) > 1 && e.Data[0] == 'd' {
+				if n, err := strconv.ParseInt(string(e.Data[1:]), 10, 64); err == nil {
+					post[fmt.Sprintf("Ldata[%d]", e.Index)] = n
+				}
+			} else if len(e.Data) == 0 {
+				post[fmt.Sprintf("Ldata[%d]", e.Index)] = 0
+			}
+		}
+	}
+	ss, _ := NewStateStorage(dir)
+	pt, pvote, _ := ss.State()
+	post["persTerm"], post["persVote"] = pt, govcID(pvote)
+	b, _ := json.Marshal(post)
+	fmt.Printf("REPLAY-POST %s\n", b)
+}
+`
